@@ -56,7 +56,7 @@ type Op struct {
 }
 
 type Move struct {
-	Kind string `json:"kind"`           // leader brokeradd brokerremove topiccreate coord txn ctrlr readdress renumber
+	Kind string `json:"kind"`           // leader brokeradd brokerremove topiccreate coord txn ctrlr readdress renumber up
 	Host string `json:"host,omitempty"` // readdress: new host name ("" = unchanged)
 	Port int    `json:"port,omitempty"` // readdress: new port (0 = unchanged)
 	Rack string `json:"rack,omitempty"` // readdress: new rack
@@ -84,6 +84,11 @@ type Step struct {
 	CensusMs    int    `json:"censusMs,omitempty"`    // let things settle this long, then record which connections are still open
 }
 
+type SaslSpec struct {
+	User string `json:"user"`
+	Pass string `json:"pass"`
+}
+
 type TopicSpec struct {
 	Name    string `json:"name"`
 	Leaders []int  `json:"leaders"`
@@ -104,4 +109,8 @@ type Script struct {
 	MetaTopics []string                    `json:"metaTopics,omitempty"`
 	WFaults    []WFault                    `json:"wfaults,omitempty"`
 	Steps      []Step                      `json:"steps"`
+	// brokers whose address refuses connections when the scenario starts (move kind "up" brings one up)
+	DownAtStart []int `json:"downAtStart,omitempty"`
+	// SASL/PLAIN: the Transport authenticates with this user, the brokers require it
+	Sasl *SaslSpec `json:"sasl,omitempty"`
 }
